@@ -301,11 +301,11 @@ def maybe_trainable(rng, tape):
     return tape
 
 
-def g_generic(rng, nw=3, n=7, meas="any", shots=None, pool="all", extra=()):
+def g_generic(rng, nw=3, n=7, meas="any", shots="rand", pool="all", extra=()):
     ops = rand_ops(rng, list(range(nw)), rng.randint(3, n), pool=pool)
     for e in extra:
         ops.insert(rng.randint(0, len(ops)), e)
-    sh = rand_shots(rng) if shots is None else shots
+    sh = rand_shots(rng) if shots == "rand" else shots
     ms = rand_meas(rng, list(range(nw)), meas)
     if sh is not None and any(isinstance(m, qp.measurements.StateMP) for m in ms):
         ms = [qp.expval(qp.Z(0))]
@@ -341,7 +341,10 @@ def g_batched(rng, all_trainable=True):
 def g_batch_input(rng):
     t = g_batched(rng)
     ops = list(t.operations) + [qp.RY(pnp.array(ang(rng), requires_grad=True), 1)]
+    o0 = ops[0]
+    ops[0] = type(o0)(pnp.array(qp.math.unwrap(o0.data)[0], requires_grad=False), o0.wires)
     t = QuantumScript(ops, t.measurements, shots=t.shots)
+    t.trainable_params = list(range(1, len(t.get_parameters(trainable_only=False))))
     return t, (), {"argnum": [0] if rng.random() < 0.5 else 0}
 
 
@@ -424,11 +427,12 @@ def g_qmc_tape(rng):
 def g_transpile(rng):
     t = g_generic(rng, nw=4, meas="expval")
     ops = [o for o in t.operations if len(o.wires) <= 2]
-    return QuantumScript(ops, t.measurements, shots=t.shots), (), {"coupling_map": [(0, 1), (1, 2), (2, 3)]}
+    ms = rng.choice([[qp.expval(qp.Z(0))], [qp.probs(wires=[0, 3])], [qp.expval(qp.X(2)), qp.var(qp.Z(1))]])
+    return QuantumScript(ops, ms, shots=t.shots), (), {"coupling_map": [(0, 1), (1, 2), (2, 3)]}
 
 
 def g_sign(rng):
-    H = qp.Hamiltonian([0.5, -0.3, 0.2], [qp.Z(0) @ qp.Z(1), qp.X(0), qp.Z(2)])
+    H = qp.Hamiltonian([0.5, -0.3, 0.2], [qp.Z(0) @ qp.Z(1), qp.Z(0), qp.Z(2)])
     ops = rand_ops(rng, W3, 3, pool="grad")
     return QuantumScript(ops, [qp.expval(H)], shots=rand_shots(rng)), (), {"circuit": rng.random() < 0.5, "J": 2}
 
@@ -492,8 +496,8 @@ def g_cut_mc(rng):
     t = g_cut(rng)
     t = QuantumScript(t.operations, [qp.sample(wires=[0, 2])], shots=20)
     if rng.random() < 0.5:
-        return t, (), {"classical_processing_fn": lambda x: float(np.sum(x))}
-    return t, (), {}
+        return t, (), {"classical_processing_fn": lambda x: float(np.sum(x)), "device_wires": qp.wires.Wires([0, 1, 2])}
+    return t, (), {"device_wires": qp.wires.Wires([0, 1, 2])}
 
 
 def g_mapwires(rng):
@@ -501,7 +505,8 @@ def g_mapwires(rng):
 
 
 def g_spectrum(rng):
-    ops = [qp.RX(par(rng), 0, id="x"), qp.RY(par(rng), 1, id="y"), qp.CNOT([0, 1]), qp.RX(par(rng), 1, id="x"), qp.RZ(par(rng), 0)]
+    mk = qp.fourier.mark
+    ops = [mk(qp.RX(par(rng), 0), "x"), mk(qp.RY(par(rng), 1), "y"), qp.CNOT([0, 1]), mk(qp.RX(par(rng), 1), "x"), qp.RZ(par(rng), 0)]
     return QuantumScript(ops, [qp.expval(qp.Z(0))])
 
 
@@ -511,7 +516,7 @@ def g_shadow(rng):
 
 
 def g_snap(rng):
-    return g_generic(rng, extra=[qp.Snapshot("a"), qp.Snapshot(measurement=qp.expval(qp.Z(0)))], shots=False or None)
+    return g_generic(rng, extra=[qp.Snapshot("a"), qp.Snapshot(measurement=qp.expval(qp.Z(0)))], shots=None)
 
 
 def g_fisher(rng):
@@ -578,6 +583,17 @@ def g_ciX(rng):
     return QuantumScript(ops, [qp.expval(qp.Z(2))]), (), {}
 
 
+def with_graph(fn):
+    def w(tape, *a, **k):
+        qp.decomposition.enable_graph()
+        try:
+            return fn(tape, *a, **k)
+        finally:
+            qp.decomposition.disable_graph()
+    w._c18_inner = fn
+    return w
+
+
 def T_(x):  # plain helper: (tape) -> (tape, args, kwargs)
     return lambda rng: (x(rng), (), {})
 
@@ -626,18 +642,19 @@ def build_registry():
     reg("compile[cancel_inverses,single_qubit_fusion,undo_swaps]", _compile_custom, [G(), T_(g_decomp)],
         parts=("cancel_inverses", "single_qubit_fusion", "undo_swaps"))
     # decomposition
+    reg("decompose[graph]", with_graph(tr.decompose), [g_decompose_kw])
     reg("decompose", tr.decompose, [g_decompose_kw, kw_(g_decomp, max_expansion=1), T_(g_mcm)])
     reg("clifford_t_decomposition", tr.clifford_t_decomposition, [kw_(lambda r: g_generic(r, nw=2, n=4, meas="expval"), epsilon=0.05)])
     reg("gridsynth", tr.gridsynth, [G(nw=2, n=4)])
     reg("rz_phase_gradient", tr.rz_phase_gradient, [g_rzpg])
     reg("transpile", tr.transpile, [g_transpile])
-    reg("to_zx", tr.to_zx, [G(pool="clifford", meas="expval", shots=None), kw_(lambda r: g_generic(r, meas="expval"), expand_measurements=True)])
+    reg("to_zx", tr.to_zx, [G(pool="clifford", meas="expval", shots=None), kw_(lambda r: g_generic(r, pool="clifford", meas="diag", shots=None), expand_measurements=True)])
     reg("parity_matrix", tr.parity_matrix, [T_(g_cnots), kw_(g_cnots, wire_order=[2, 0, 1])])
     reg("phase_polynomial", tr.phase_polynomial, [T_(lambda r: g_cnots(r, rz=True))])
     reg("rowcol", tr.rowcol, [g_rowcol])
     reg("commutation_dag", tr.commutation_dag, [G()])
     reg("convert_to_numpy_parameters", tr.convert_to_numpy_parameters, [G(), T_(g_grad)])
-    reg("decomp_inspector", tr.decomp_inspector, [g_inspect])
+    reg("decomp_inspector", with_graph(tr.decomp_inspector), [g_inspect])
     reg("resolve_dynamic_wires", tr.resolve_dynamic_wires, [g_dynwires])
     reg("map_wires", qp.map_wires, [g_mapwires])
     reg("simplify", qp.simplify, [G()])
@@ -675,12 +692,12 @@ def build_registry():
     reg("insert", qp.noise.insert, [g_insert])
     reg("mitigate_with_zne", qp.noise.mitigate_with_zne, [g_zne])
     # cutting
-    reg("cut_circuit", qp.cut_circuit, [T_(g_cut), kw_(g_cut, use_opt_einsum=True)])
+    reg("cut_circuit", qp.cut_circuit, [kw_(g_cut, device_wires=qp.wires.Wires([0, 1, 2])), kw_(g_cut, use_opt_einsum=True, device_wires=qp.wires.Wires([0, 1, 2]))])
     reg("cut_circuit_mc", qp.cut_circuit_mc, [g_cut_mc])
     # misc public
     reg("circuit_spectrum", qp.fourier.circuit_spectrum, [T_(g_spectrum), kw_(g_spectrum, encoding_gates=["x"])])
     reg("shadow_state", qp.shadows.shadow_state, [g_shadow])
-    reg("ftqc.convert_to_mbqc_gateset", qp.ftqc.convert_to_mbqc_gateset, [T_(g_mbqc_gateset)])
+    reg("ftqc.convert_to_mbqc_gateset", with_graph(qp.ftqc.convert_to_mbqc_gateset), [T_(g_mbqc_gateset)])
     reg("ftqc.convert_to_mbqc_formalism", qp.ftqc.convert_to_mbqc_formalism,
         [lambda r: (QuantumScript([qp.H(0), qp.S(0), qp.CNOT([0, 1]), qp.ftqc.RotXZX(0.1, 0.2, 0.3, 1)], [qp.sample(wires=[0, 1])], shots=5), (), {})])
     reg("ftqc.diagonalize_mcms", qp.ftqc.diagonalize_mcms, [T_(g_diag_mcms)])
@@ -733,18 +750,31 @@ def enumerate_public():
 
 
 def apply(fn, tape, args, kwargs):
+    """returns (batch, post); informative/final transforms return their result directly -> ([], None)"""
     out = fn(tape, *args, **kwargs)
-    batch, post = out
-    return list(batch), post
+    if isinstance(out, tuple) and len(out) == 2 and callable(out[1]) and isinstance(out[0], (list, tuple)) \
+            and all(isinstance(t, QuantumScript) for t in out[0]):
+        return list(out[0]), out[1]
+    return [], None
 
 
 def run_case(case):
     name, variant, cseed = case["t"], case["variant"], case["cseed"]
     fn, gens, parts = REG[name]
-    rng = random.Random(cseed)
+    gen = gens[variant % len(gens)]
     res = {"t": name, "variant": variant, "cseed": cseed, "status": "ok", "diffs": [], "stage": None}
+    import time as _time
+    _t0 = _time.time()
     try:
-        tape, args, kwargs = gens[variant % len(gens)](rng)
+        return _run_case(res, name, variant, cseed, fn, gen, parts)
+    finally:
+        res["dt"] = round(_time.time() - _t0, 3)
+
+
+def _run_case(res, name, variant, cseed, fn, gen, parts):
+    try:
+        tape, args, kwargs = gen(random.Random(cseed))
+        ref, _, _ = gen(random.Random(cseed))      # structurally identical, independent objects
     except Exception as ex:  # noqa
         res["status"] = "gen_error:" + type(ex).__name__ + ":" + str(ex)[:80]
         return res
@@ -756,20 +786,21 @@ def run_case(case):
         res["status"] = "fingerprint_unstable"
         return res
     try:
-        snapshot = copy.deepcopy(tape)
+        ref_ok = bool(qp.equal(ref, tape))
     except Exception:  # noqa
-        snapshot = None
-    # reference execution before (qp.execute must not change the tape either)
+        ref_ok = False
+    res["ref_equal_before"] = ref_ok
+    # reference execution on the independent twin (so that the tape under test is untouched before the transform)
     r0 = None
     try:
-        r0, dev0 = execute([tape])
+        r0, dev0 = execute([ref])
         res["exec"] = dev0
     except Exception as ex:  # noqa
         res["exec"] = "not_executable"
-    d = fp_diff(fp0, fingerprint(tape))
-    if d:
-        res["diffs"], res["stage"] = d, "qp.execute"
-        return res
+    try:
+        ref2, _, _ = gen(random.Random(cseed))     # execution may itself touch `ref`; take a fresh twin for qp.equal
+    except Exception:  # noqa
+        ref2, ref_ok = None, False
     # the transform
     try:
         batch, post = apply(fn, tape, args, kwargs)
@@ -782,16 +813,16 @@ def run_case(case):
             res["diffs"], res["stage"] = d, "transform(raised)"
         return res
     res["n_out"] = len(batch)
+    res["informative"] = post is None
     res["same_object_returned"] = any(t is tape for t in batch)
-    res["shares_ops_list"] = any((t is not tape) and (t.operations is tape.operations) for t in batch if hasattr(t, "operations"))
     d = fp_diff(fp0, fingerprint(tape))
     if d:
         res["diffs"], res["stage"] = d, "transform"
     # post-processing on real (or fake) results
-    if not d:
+    if not d and post is not None:
         try:
             try:
-                rs, _ = execute(batch, mixed_first=name in ("add_noise", "insert", "mitigate_with_zne"))
+                rs, _ = execute([copy.copy(t) for t in batch], mixed_first=name in ("add_noise", "insert", "mitigate_with_zne"))
                 res["post"] = "executed"
             except Exception:  # noqa
                 rs = fake_results(batch)
@@ -802,28 +833,26 @@ def run_case(case):
         d = fp_diff(fp0, fingerprint(tape))
         if d:
             res["diffs"], res["stage"] = d, "postprocessing"
-    # mutating the OUTPUT lists must not reach the input (outputs that are not the input object itself)
+    # an output tape (other than the input object itself) must not share the input's list objects
     if not d:
+        for t in batch:
+            if t is tape:
+                continue
+            if t.operations is tape.operations or t.measurements is tape.measurements:
+                res["diffs"], res["stage"] = ["output_shares_list_object"], "output-alias"
+                d = res["diffs"]
+                break
+    # structural equality with an identically generated twin (independent of my fingerprint)
+    if not d and ref_ok:
         try:
-            for t in batch:
-                if t is tape or not isinstance(t, QuantumScript):
-                    continue
-                if t.operations is tape.operations or t.measurements is tape.measurements:
-                    res["diffs"], res["stage"] = ["output_shares_list_object"], "output-alias"
-                    d = res["diffs"]
-                    break
-        except Exception:  # noqa
-            pass
-    # snapshot equality (independent of my fingerprint)
-    if not d and snapshot is not None:
-        try:
-            if not qp.equal(snapshot, tape):
-                res["diffs"], res["stage"] = ["qp.equal(deepcopy_before, tape)"], "transform"
+            if not qp.equal(ref2, tape):
+                res["diffs"], res["stage"] = ["qp.equal(twin, tape)"], "transform"
                 d = res["diffs"]
         except Exception:  # noqa
             pass
-    # re-execution
+    # re-execution of the original
     if r0 is not None:
+        fpx = fingerprint(tape)
         try:
             r1, _ = execute([tape])
             if not same_results(r0, r1):
@@ -832,20 +861,22 @@ def run_case(case):
         except Exception as ex:  # noqa
             res["diffs"] = sorted(set(res["diffs"]) | {"execution_raises:" + type(ex).__name__})
             res["stage"] = res["stage"] or "re-execution"
+        # observation only (device execution is not a transform in the sense of the property)
+        dx = fp_diff(fpx, fingerprint(tape))
+        if dx:
+            res["exec_changed_input"] = dx
     # attribution for composites: does a constituent alone modify an identically generated tape?
     if res["diffs"] and parts:
         blame = []
         for p in parts:
             try:
-                t2, _, _ = gens[variant % len(gens)](random.Random(cseed))
+                t2, _, _ = gen(random.Random(cseed))
                 f2 = fingerprint(t2)
-                f2b = None
                 try:
                     REG[p][0](t2)
                 except Exception:  # noqa
                     pass
-                f2b = fingerprint(t2)
-                if fp_diff(f2, f2b):
+                if fp_diff(f2, fingerprint(t2)):
                     blame.append(p)
             except Exception:  # noqa
                 pass
@@ -944,8 +975,8 @@ def main():
         covered = {}
         for name, (fn, gens, parts) in REG.items():
             covered[name] = {"variants": len(gens), "parts": list(parts),
-                             "public_id": next((q for i, (q, o) in pub.items() if o is fn), None)}
-        regd = {id(fn) for fn, _, _ in REG.values()}
+                             "public_id": next((q for i, (q, o) in pub.items() if o is getattr(fn, "_c18_inner", fn)), None)}
+        regd = {id(getattr(fn, "_c18_inner", fn)) for fn, _, _ in REG.values()}
         unregistered = sorted(q for i, (q, o) in pub.items() if i not in regd)
         print(json.dumps({"registry": covered, "public": sorted(q for q, _ in pub.values()), "unregistered": unregistered,
                           "transforms_all": [n for n in qp.transforms.__all__]}))
